@@ -267,9 +267,10 @@ class FStringNode:
 
     def close_parentheses(self, character):
         self.parentheses_count -= 1
-        if self.parentheses_count == 0:
-            # No parentheses means that the format spec is also finished.
-            self.format_spec_count = 0
+        if self.parentheses_count < self.format_spec_count:
+            # The expression that is closed here had a format spec, which is
+            # finished as well now.
+            self.format_spec_count = max(self.parentheses_count, 0)
 
     def allow_multiline(self):
         return len(self.quote) == 3
